@@ -30,11 +30,15 @@ COMPRESSORS = ["blosc", "zstd", "lz4", "bz2"]
 
 
 def src_chunks(n, gap=3):
+    """Source layout `n`: n < 10 -> n chunks of three rows; 10 + n / 20 + n / 30 + n -> the same with the middle / first / last chunk
+    holding no rows (stored layouts with row-free chunks)."""
+    variant, n = divmod(n, 10)
+    empty = {0: None, 1: n // 2, 2: 0, 3: n - 1}[variant]
     out = []
     t = 0
     for i in range(n):
         rows = [[t + 1, t + 2, 10 * i + 1], [t + 2 + gap, t + 3 + gap, 10 * i + 2], [t + 3 + gap, t + 5 + gap, 10 * i + 3]]
-        out.append(dict(s=t, e=t + 6 + gap + (gap if i % 2 else 0), rows=rows))
+        out.append(dict(s=t, e=t + 6 + gap + (gap if i % 2 else 0), rows=[] if i == empty else rows))
         t = out[-1]["e"]
     return [dict(s=c["s"] * UNIT, e=c["e"] * UNIT, rows=[[r[0] * UNIT, r[1] * UNIT, r[2]] for r in c["rows"]]) for c in out]
 
@@ -355,8 +359,18 @@ def histories(chk):
     if r.violated:
         raise V.MachineryError(f"StoreOps.tla violates {r.violated}")
     rng = random.Random(chk.seed)
-    hs = [(n, gen_history(rng, n, rng.choice([3, 4, 5]))) for _ in range(24 if quick else 200)]
-    res = V.pmap(run_history, hs, procs=8)
+    res = []
+    for lay in (n, 13):                      # the 2-chunk layout, and a 3-chunk layout whose middle chunk has no rows
+        c = storeops_constants(lay)
+        rng = random.Random(chk.seed + lay)
+        hs = [(lay, gen_history(rng, lay, rng.choice([3, 4, 5]))) for _ in range((16 if lay == n else 10) if quick else 120)]
+        part = V.pmap(run_history, hs, procs=8)
+        validate_histories(chk, c, part)
+        res += part
+    chk.extra["operation_histories"] = len(res)
+
+
+def validate_histories(chk, c, res):
     mc, cfg = tla_consts(c, 10)
     d = V.stage_spec(["StoreOps", "StoreOpsTrace"], {"MCT.tla": "---- MODULE MCT ----\nEXTENDS StoreOpsTrace\n" + mc + "====\n",
                                                      "MCT.cfg": "SPECIFICATION TraceSpec\n" + cfg + "INVARIANT Progress\nINVARIANT AllCopiesComplete\n"
@@ -382,7 +396,6 @@ def histories(chk):
                           dict(history=[rr["n"], rr["ops"]]))
         else:
             chk.traces += 1
-    chk.extra["operation_histories"] = len(res)
 
 
 def run(chk):
@@ -395,6 +408,8 @@ def run(chk):
             if quick and comp in ("lz4", "bz2") and tr == 4:
                 continue
             work.append(("copy", (comp, rechunk, tr, n)))
+            if comp in (None, "zstd"):
+                work.append(("copy", (comp, rechunk, tr, 10 + n)))
     for comp in [None] + COMPRESSORS:
         for tr in (None, 1, 4, 100):
             for par in (False, "thread", "process"):
@@ -402,6 +417,9 @@ def run(chk):
                     if quick and ((comp in ("lz4", "bz2") and par == "process") or (par == "process" and tr == 4)):
                         continue
                     work.append(("rechunker", (comp, tr, par, replace, n)))
+                    if comp in (None, "lz4") and par in (False, "thread"):
+                        for lay in (10 + n, 20 + n, 30 + n):
+                            work.append(("rechunker", (comp, tr, par, replace, lay)))
     for sr in (1, 2, 4):
         for proc, mw in (("single_thread", None), ("threaded_mailbox", None), ("threaded_mailbox", 2)):
             work.append(("onload", (sr, proc, mw, n)))
